@@ -14,10 +14,10 @@ theorem userCalls_append (n : Nat) (a b : List Handler) :
   | nil => rfl
   | cons h r ih => cases h <;> simp [userCalls, ih]
 
-theorem userCalls_own (n : Nat) (hm : Bool) (ev : Ev) :
-    userCalls n ((([(Ev.leave, Handler.onLeave)] ++ (if hm then [(Ev.join, Handler.onJoin)] else [])
-        ++ [(Ev.disconnect, Handler.onDisconnect)]).filter (fun p => p.1 = ev)).map (·.2)) = [] := by
-  cases hm <;> cases ev <;> simp [userCalls]
+theorem userCalls_own (n : Nat) (ev : Ev) :
+    userCalls n (([(Ev.leave, Handler.onLeave), (Ev.join, Handler.onJoin),
+        (Ev.disconnect, Handler.onDisconnect)].filter (fun p => p.1 = ev)).map (·.2)) = [] := by
+  cases ev <;> simp [userCalls]
 
 theorem userCalls_comp (n : Nat) (ls : List Ev) (ev : Ev) :
     userCalls n (((ls.map fun e => (e, Handler.user e)).filter (fun p => p.1 = ev)).map (·.2))
@@ -49,9 +49,9 @@ theorem sfire_eq (cfg : Cfg) (hnd : cfg.listeners.Nodup) (ev : Ev) (n : Nat) :
     sfire cfg ev n = .sfire ev n :: (if cfg.listeners.contains ev then [.call ev n] else []) := by
   unfold sfire
   congr 1
-  have e1 : fireChain [sessionOwn cfg.hasMain, compNode cfg.listeners] ev
-      = ((([(Ev.leave, Handler.onLeave)] ++ (if cfg.hasMain then [(Ev.join, Handler.onJoin)] else [])
-          ++ [(Ev.disconnect, Handler.onDisconnect)]).filter (fun p => p.1 = ev)).map (·.2))
+  have e1 : fireChain [sessionOwn, compNode cfg.listeners] ev
+      = (([(Ev.leave, Handler.onLeave), (Ev.join, Handler.onJoin),
+          (Ev.disconnect, Handler.onDisconnect)].filter (fun p => p.1 = ev)).map (·.2))
         ++ fireChain [compNode cfg.listeners] ev := rfl
   rw [e1, userCalls_append, userCalls_own, List.nil_append]
   cases hl : cfg.listeners with
@@ -66,11 +66,11 @@ theorem sfire_eq (cfg : Cfg) (hnd : cfg.listeners.Nodup) (ev : Ev) (n : Nat) :
 /-- **bubbling at the source**: a listener registered on the component for `ev` is among the handlers run when a
 session created by `_connect_once` fires `ev` (such a session always has own listeners, so `fire` does consult the
 parent). -/
-theorem fire_reaches_component (hm : Bool) (ls : List Ev) (ev : Ev) (h : ev ∈ ls) :
-    Handler.user ev ∈ fireChain [sessionOwn hm, compNode ls] ev := by
-  have e1 : fireChain [sessionOwn hm, compNode ls] ev
-      = ((([(Ev.leave, Handler.onLeave)] ++ (if hm then [(Ev.join, Handler.onJoin)] else [])
-          ++ [(Ev.disconnect, Handler.onDisconnect)]).filter (fun p => p.1 = ev)).map (·.2))
+theorem fire_reaches_component (ls : List Ev) (ev : Ev) (h : ev ∈ ls) :
+    Handler.user ev ∈ fireChain [sessionOwn, compNode ls] ev := by
+  have e1 : fireChain [sessionOwn, compNode ls] ev
+      = (([(Ev.leave, Handler.onLeave), (Ev.join, Handler.onJoin),
+          (Ev.disconnect, Handler.onDisconnect)].filter (fun p => p.1 = ev)).map (·.2))
         ++ fireChain [compNode ls] ev := rfl
   rw [e1, List.mem_append]
   right
@@ -157,6 +157,7 @@ theorem blocks_tc (cfg : Cfg) (s : State) : Blocks cfg (transportCheck s).2 := b
   have hcs := tc_cases s
   generalize transportCheck s = r at hcs ⊢
   cases hcs with
+  | stopped _ => unfold stopCheck; split <;> first | exact Blocks.single _ _ rfl | exact Blocks.nil
   | giveUp _ => exact blocks_setDone _ _ _
   | wait => exact Blocks.nil
   | now => exact Blocks.single _ _ rfl
